@@ -793,8 +793,32 @@ def rule_sequence_shape(ctx: Ctx, rule: str) -> None:
     ctx.ob(rule, f'{WP}:SET_OPERATORS', so == frozenset(('&', '~', '|')), repo.loc(WP, repo.const_line(WP, 'SET_OPERATORS')), "{'&', '~', '|'}", str(sorted(so)),
            witness="fnmatch('&', '[&&]') must not trigger Python's nested-set syntax")
     seqrules.rule_scan_loops(ctx, rule, which={'set-operators-escaped', 'posix-marker-cleared', 'posix-in-loop', 'range-end-cleared-by-posix'})
-    hy = [s for s in q.stmts(lambda n: isinstance(n, ast.Expr)) if norm_src(s.value) == "result.append('\\\\' + c)" and ("c == '-'", 'T') in q.guards(s)]
-    ctx.ob(rule, f'{WP}:WcParse._sequence/literal-hyphen-escaped', len(hy) >= 2, repo.loc(WP, sq.node), "a `-` that is not a range delimiter is emitted as `\\-`", str(len(hy)),
+    # hyphens, on the table of one loop iteration: a `-` is emitted raw only as a range delimiter (and that iteration records where
+    # the range ends); every other `-` is emitted as `\\-`
+    from ..symeval import focus, Tok
+    rows, scan, _every = seqrules.loop_table(repo, WP, 'WcParse')
+    bad_h = []
+    n_esc = n_raw = 0
+    for p in rows:
+        focus(p)
+        if seqrules._char(p, scan) != '-':
+            continue
+        vals = [e[2][0] for e in p.of('call') if e[1].endswith('.append') and e[2]] + \
+               [e[2][1] for e in p.of('call') if e[1] == f'{WP}:WcParse._sequence_range_check' and len(e[2]) > 1]
+        for v in vals:
+            if isinstance(v, Tok) and v.parts == ('\\', '{' + scan + '}'):
+                n_esc += 1
+            elif _tag(v) == scan:
+                n_raw += 1
+                marks = [k for e in p.of('iterend') if e[2] == 'next' for k, x in e[3].items() if _tag(x) == 'i.index']
+                if not marks:
+                    bad_h.append('a raw `-` is emitted by an iteration that does not record a range end')
+            else:
+                bad_h.append(f'`-` is emitted as {_tag(v)[:40]}')
+        if not vals:
+            bad_h.append('an iteration on `-` emits nothing')
+    ctx.ob(rule, f'{WP}:WcParse._sequence/literal-hyphen-escaped', n_esc >= 2 and n_raw >= 1 and not bad_h, repo.loc(WP, sq.node),
+           "a `-` that is not a range delimiter is emitted as `\\-`; the delimiter records the range end", f'{n_esc} escaped / {n_raw} delimiter rows' if not bad_h else sorted(set(bad_h))[0],
            witness="fnmatch('-', '[a-c-]') must be True and must not create a second range")
 
 
